@@ -217,116 +217,243 @@ fn to_value(t: &T) -> Value {
     Mat::new(&In::T(t.clone()), None).view().unwrap().to_owned()
 }
 
+/// One graph-level case: load `bytes` unoptimised, record the operator nodes in
+/// plan order with their rules, the declared types of inputs / constants, the
+/// labels of the real `infer_shapes()`, the run-time type of every produced
+/// value, the types the optimised model (shape inference on) attaches to the
+/// values that survive optimisation (`Model::node_info(..).dtype()`, matched by
+/// name), and the outputs of the optimised model.  A model the loader or the
+/// executor rejects is recorded as an outcome.
+fn run_graph_case(tr: &mut Trace, id: u64, key: &str, name: &str, cls: &str, bytes: Vec<u8>, inputs: &[(String, T)], must_load: bool) {
+    let mut opts = rten::ModelOptions::with_all_ops();
+    opts.enable_optimization(false);
+    let model = match opts.load(bytes.clone()) {
+        Ok(md) => md,
+        Err(e) => {
+            if must_load {
+                eprintln!("graph-level model {name} failed to load: {e}");
+                std::process::exit(2);
+            }
+            tr.emit(json!({
+                "ev": "case", "prop": "C12G", "id": id, "key": key, "model": name,
+                "op": "graph", "dt": "", "cls": cls, "nodes": [], "env": [],
+            }));
+            tr.emit(json!({
+                "ev": "run", "id": id, "mode": "graph", "outcome": "err",
+                "err": format!("load: {e}").chars().take(160).collect::<String>(),
+                "actual": [], "inferred": [], "declared": [], "outs_unopt": [], "outs_opt": [], "opt_ok": false,
+                "ops_unopt": 0, "ops_opt": 0, "outputs": [],
+            }));
+            return;
+        }
+    };
+    let graph = model.verif_graph();
+    let plan = graph
+        .execution_plan(graph.input_ids(), graph.output_ids(), PlanOptions::default())
+        .expect("plan");
+    // env: declared types of graph inputs and constants
+    let mut env: Vec<J> = Vec::new();
+    for (nid, node) in graph.iter() {
+        let declared = match node {
+            Node::Constant(_) => node.dtype(),
+            Node::Value(_) if graph.input_ids().contains(&nid) => node.dtype(),
+            _ => None,
+        };
+        if let Some(vt) = declared {
+            env.push(json!({"id": nid.as_u32(), "vt": vt_name(vt)}));
+        }
+    }
+    let mut nodes: Vec<J> = Vec::new();
+    let mut produced: Vec<rten::NodeId> = Vec::new();
+    for op_id in &plan {
+        let Some(Node::Operator(opn)) = graph.get_node(*op_id) else { continue };
+        let rules = opn.operator().output_types(&OutputTypesContext { num_outputs: opn.output_ids().len() });
+        nodes.push(json!({
+            "op": opn.operator().name(),
+            "ins": opn.input_ids().iter().map(|i| i.map(|x| x.as_u32() as i64).unwrap_or(-1)).collect::<Vec<_>>(),
+            "outs": opn.output_ids().iter().map(|i| i.map(|x| x.as_u32() as i64).unwrap_or(-1)).collect::<Vec<_>>(),
+            "hasRules": rules.is_some(),
+            "rules": rules.as_ref().map(|l| l.iter().map(rule_json).collect::<Vec<_>>()).unwrap_or_default(),
+        }));
+        produced.extend(opn.output_ids().iter().flatten().copied());
+    }
+    tr.emit(json!({
+        "ev": "case", "prop": "C12G", "id": id, "key": key, "model": name,
+        "op": "graph", "dt": "", "cls": cls, "nodes": nodes, "env": env,
+    }));
+    tr.flush();
+    // real type inference
+    let inferred: Vec<J> = match infer_shapes(graph, InferShapeOptions::default()) {
+        Ok(res) => {
+            let mut v: Vec<(u32, String)> = res.types.iter().map(|(k, t)| (k.as_u32(), vt_name(*t))).collect();
+            v.sort();
+            v.into_iter().map(|(k, t)| json!({"id": k, "vt": t})).collect()
+        }
+        Err(e) => {
+            eprintln!("infer_shapes failed on {name}: {e}");
+            vec![]
+        }
+    };
+    // run and fetch every produced value
+    let run = |model: &rten::Model, outs: &[rten::NodeId]| {
+        vcommon::guarded(|| {
+            let ins: Vec<(rten::NodeId, ValueOrView)> = inputs
+                .iter()
+                .map(|(name, t)| (model.node_id(name).expect("input"), to_value(t).into()))
+                .collect();
+            model.run(ins, outs, None)
+        })
+    };
+    let (outcome, err, actual) = match run(&model, &produced) {
+        Ok(Ok(vals)) => (
+            "ok",
+            String::new(),
+            produced.iter().zip(&vals).map(|(id, v)| json!({"id": id.as_u32(), "vt": vt_name(v.dtype())})).collect::<Vec<_>>(),
+        ),
+        Ok(Err(e)) => ("err", format!("{e}").chars().take(160).collect(), vec![]),
+        Err(p) => ("panic", p.chars().take(160).collect(), vec![]),
+    };
+    // optimised model: outputs (CastElimination relies on the labels) and the
+    // types a user of the loaded model sees on the surviving values
+    let unopt = run(&model, model.output_ids());
+    let mut o2 = rten::ModelOptions::with_all_ops();
+    o2.enable_optimization(true);
+    let opt_model = o2.load(bytes).ok();
+    let n_ops_unopt = plan.len();
+    let (n_ops_opt, opt) = match &opt_model {
+        Some(om) => (
+            om.verif_graph().iter().filter(|(_, nd)| matches!(nd, Node::Operator(_))).count(),
+            Some(run(om, om.output_ids())),
+        ),
+        None => (0, None),
+    };
+    let mut declared: Vec<J> = Vec::new();
+    if let Some(om) = &opt_model {
+        for pid in &produced {
+            let Some(vname) = graph.get_node(*pid).and_then(|n| n.name()) else { continue };
+            if let Some(oid) = om.find_node(vname) {
+                if let Some(vt) = om.node_info(oid).and_then(|ni| ni.dtype()) {
+                    declared.push(json!({"id": pid.as_u32(), "vt": vt_name(vt)}));
+                }
+            }
+        }
+    }
+    let vals_json = |r: &Result<Result<Vec<Value>, rten::RunError>, String>| -> Vec<J> {
+        match r {
+            Ok(Ok(v)) => v.iter().map(super::value_json).collect(),
+            _ => vec![],
+        }
+    };
+    let opt_ok = matches!(&opt, Some(Ok(Ok(_))));
+    tr.emit(json!({
+        "ev": "run", "id": id, "mode": "graph", "outcome": outcome, "err": err,
+        "actual": actual, "inferred": inferred, "declared": declared,
+        "outs_unopt": vals_json(&unopt),
+        "outs_opt": opt.as_ref().map(vals_json).unwrap_or_default(),
+        "opt_ok": opt_ok && matches!(&unopt, Ok(Ok(_))),
+        "ops_unopt": n_ops_unopt, "ops_opt": n_ops_opt,
+        "outputs": [],
+    }));
+}
+
 fn graph_level(tr: &mut Trace, id: &mut u64, rng: &mut Rng, rounds: usize) {
     for _ in 0..rounds {
         for m in models(rng) {
             *id += 1;
-            let bytes = m.graph.to_model();
-            let mut opts = rten::ModelOptions::with_all_ops();
-            opts.enable_optimization(false);
-            let model = match opts.load(bytes.clone()) {
-                Ok(md) => md,
-                Err(e) => {
-                    eprintln!("graph-level model {} failed to load: {e}", m.name);
-                    std::process::exit(2);
-                }
-            };
-            let graph = model.verif_graph();
-            let plan = graph
-                .execution_plan(graph.input_ids(), graph.output_ids(), PlanOptions::default())
-                .expect("plan");
-            // env: declared types of graph inputs and constants
-            let mut env: Vec<J> = Vec::new();
-            for (nid, node) in graph.iter() {
-                let declared = match node {
-                    Node::Constant(_) => node.dtype(),
-                    Node::Value(_) if graph.input_ids().contains(&nid) => node.dtype(),
-                    _ => None,
+            let inputs: Vec<(String, T)> = m.inputs.iter().map(|(n, t)| (n.to_string(), t.clone())).collect();
+            run_graph_case(tr, *id, &format!("graph:{}", m.name), m.name, "graph", m.graph.to_model(), &inputs, true);
+        }
+    }
+}
+
+/// Omitted optional outputs.  For every catalogue entry whose operator can
+/// have several outputs, and every non-empty subset of *used* output slots
+/// (an omitted output is an empty output name in ONNX; trailing omissions are
+/// tried both as empty names and as a shorter output list), build the model
+///     op(inputs) -> o_k for used k ; Identity(o_k) -> y_k ; graph outputs y_k
+/// so that the operator's outputs are intermediate values whose only type
+/// label is the one graph-level inference attaches.  Patterns the loader or
+/// the operator rejects are outcomes.
+fn omitted_outputs(tr: &mut Trace, id: &mut u64, rng: &mut Rng, cat: &[Entry], reps: usize, only: Option<&str>) {
+    for en in cat {
+        let Some(base_node) = &en.node else { continue };
+        if en.big {
+            continue;
+        }
+        if let Some(o) = only {
+            if !format!("omit:{}", en.key).contains(o) {
+                continue;
+            }
+        }
+        let Ok(op) = en.load() else { continue };
+        let slots = op.max_outputs().unwrap_or(en.n_out).max(en.n_out).min(5);
+        if slots < 2 {
+            continue;
+        }
+        for &dt in &en.dts {
+            for mask in 1u32..(1 << slots) {
+                let last_used = (0..slots).rev().find(|k| mask & (1 << k) != 0).unwrap();
+                // trailing omissions: empty names, and (standard ONNX) a shorter list
+                let forms: Vec<(usize, &str)> = if last_used + 1 < slots {
+                    vec![(slots, "empty_names"), (last_used + 1, "truncated")]
+                } else {
+                    vec![(slots, "empty_names")]
                 };
-                if let Some(vt) = declared {
-                    env.push(json!({"id": nid.as_u32(), "vt": vt_name(vt)}));
+                for (n_listed, form) in forms {
+                    for k in 0..reps {
+                        let case = {
+                            let mut g = G { rng: &mut *rng, dt, special: false, exact: k % 2 == 1 };
+                            (en.gen_fn)(&mut g)
+                        };
+                        if case.inputs.iter().any(|i| matches!(i, In::Seq(..))) {
+                            continue;
+                        }
+                        let mut gr = onnx::Graph::default();
+                        let mut node = base_node.clone();
+                        node.name = "op".into();
+                        node.inputs = case
+                            .inputs
+                            .iter()
+                            .enumerate()
+                            .map(|(p, i)| if matches!(i, In::None) { String::new() } else { format!("i{p}") })
+                            .collect();
+                        // drop trailing absent inputs (standard ONNX form)
+                        while node.inputs.last().is_some_and(|s| s.is_empty()) {
+                            node.inputs.pop();
+                        }
+                        node.outputs = (0..n_listed)
+                            .map(|k| if mask & (1 << k) != 0 { format!("o{k}") } else { String::new() })
+                            .collect();
+                        let mut inputs: Vec<(String, T)> = Vec::new();
+                        for (p, i) in case.inputs.iter().enumerate() {
+                            if let In::T(t) = i {
+                                gr.inputs.push(vi(&format!("i{p}"), t.dt.onnx(), &t.shape));
+                                inputs.push((format!("i{p}"), t.clone()));
+                            }
+                        }
+                        gr.nodes.push(node);
+                        for k in 0..slots {
+                            if mask & (1 << k) != 0 {
+                                let (on, yn) = (format!("o{k}"), format!("y{k}"));
+                                gr.nodes.push(n("Identity", &[on.as_str()], &[yn.as_str()]));
+                                gr.outputs.push(onnx::ValueInfo::new(&format!("y{k}"), onnx::FLOAT, None));
+                            }
+                        }
+                        let used: String = (0..slots).map(|k| if mask & (1 << k) != 0 { '1' } else { '0' }).collect();
+                        *id += 1;
+                        run_graph_case(
+                            tr,
+                            *id,
+                            &format!("omit:{}", en.key),
+                            &format!("{}|{}|used={used}|{form}", en.key, dt.name()),
+                            &format!("used={used},{form}"),
+                            gr.to_model(),
+                            &inputs,
+                            false,
+                        );
+                    }
                 }
             }
-            let mut nodes: Vec<J> = Vec::new();
-            let mut produced: Vec<rten::NodeId> = Vec::new();
-            for op_id in &plan {
-                let Some(Node::Operator(opn)) = graph.get_node(*op_id) else { continue };
-                let rules = opn.operator().output_types(&OutputTypesContext { num_outputs: opn.output_ids().len() });
-                nodes.push(json!({
-                    "op": opn.operator().name(),
-                    "ins": opn.input_ids().iter().map(|i| i.map(|x| x.as_u32() as i64).unwrap_or(-1)).collect::<Vec<_>>(),
-                    "outs": opn.output_ids().iter().map(|i| i.map(|x| x.as_u32() as i64).unwrap_or(-1)).collect::<Vec<_>>(),
-                    "hasRules": rules.is_some(),
-                    "rules": rules.as_ref().map(|l| l.iter().map(rule_json).collect::<Vec<_>>()).unwrap_or_default(),
-                }));
-                produced.extend(opn.output_ids().iter().flatten().copied());
-            }
-            tr.emit(json!({
-                "ev": "case", "prop": "C12G", "id": *id, "key": format!("graph:{}", m.name), "model": m.name,
-                "op": "graph", "dt": "", "cls": "graph", "nodes": nodes, "env": env,
-            }));
-            tr.flush();
-            // real type inference
-            let inferred: Vec<J> = match infer_shapes(graph, InferShapeOptions::default()) {
-                Ok(res) => {
-                    let mut v: Vec<(u32, String)> = res.types.iter().map(|(k, t)| (k.as_u32(), vt_name(*t))).collect();
-                    v.sort();
-                    v.into_iter().map(|(k, t)| json!({"id": k, "vt": t})).collect()
-                }
-                Err(e) => {
-                    eprintln!("infer_shapes failed on {}: {e}", m.name);
-                    vec![]
-                }
-            };
-            // run and fetch every produced value
-            let run = |model: &rten::Model, outs: &[rten::NodeId]| {
-                vcommon::guarded(|| {
-                    let ins: Vec<(rten::NodeId, ValueOrView)> = m
-                        .inputs
-                        .iter()
-                        .map(|(name, t)| (model.node_id(name).expect("input"), to_value(t).into()))
-                        .collect();
-                    model.run(ins, outs, None)
-                })
-            };
-            let (outcome, err, actual) = match run(&model, &produced) {
-                Ok(Ok(vals)) => (
-                    "ok",
-                    String::new(),
-                    produced.iter().zip(&vals).map(|(id, v)| json!({"id": id.as_u32(), "vt": vt_name(v.dtype())})).collect::<Vec<_>>(),
-                ),
-                Ok(Err(e)) => ("err", format!("{e}").chars().take(160).collect(), vec![]),
-                Err(p) => ("panic", p.chars().take(160).collect(), vec![]),
-            };
-            // optimised vs unoptimised model outputs (CastElimination relies on the labels)
-            let unopt = run(&model, model.output_ids());
-            let mut o2 = rten::ModelOptions::with_all_ops();
-            o2.enable_optimization(true);
-            let opt_model = o2.load(bytes).ok();
-            let n_ops_unopt = plan.len();
-            let (n_ops_opt, opt) = match &opt_model {
-                Some(om) => (
-                    om.verif_graph().iter().filter(|(_, nd)| matches!(nd, Node::Operator(_))).count(),
-                    Some(run(om, om.output_ids())),
-                ),
-                None => (0, None),
-            };
-            let vals_json = |r: &Result<Result<Vec<Value>, rten::RunError>, String>| -> Vec<J> {
-                match r {
-                    Ok(Ok(v)) => v.iter().map(super::value_json).collect(),
-                    _ => vec![],
-                }
-            };
-            let opt_ok = matches!(&opt, Some(Ok(Ok(_))));
-            tr.emit(json!({
-                "ev": "run", "id": *id, "mode": "graph", "outcome": outcome, "err": err,
-                "actual": actual, "inferred": inferred,
-                "outs_unopt": vals_json(&unopt),
-                "outs_opt": opt.as_ref().map(vals_json).unwrap_or_default(),
-                "opt_ok": opt_ok && matches!(&unopt, Ok(Ok(_))),
-                "ops_unopt": n_ops_unopt, "ops_opt": n_ops_opt,
-                "outputs": [],
-            }));
         }
     }
 }
@@ -336,6 +463,7 @@ pub fn main() -> i32 {
     let cases = vcommon::arg_usize("--cases", 4);
     let rounds = vcommon::arg_usize("--graph-rounds", 5);
     let only = vcommon::arg("--only");
+    let omit_reps = vcommon::arg_usize("--omit-reps", 1);
     let mut tr = Trace::create(&out);
     let mut rng = Rng::from_env();
     let cat = catalogue();
@@ -372,6 +500,9 @@ pub fn main() -> i32 {
     }
     if only.is_none() || only.as_deref() == Some("graph:") {
         graph_level(&mut tr, &mut id, &mut rng, rounds);
+    }
+    if only.is_none() || only.as_deref().is_some_and(|o| o.starts_with("omit:")) {
+        omitted_outputs(&mut tr, &mut id, &mut rng, &cat, omit_reps, only.as_deref().filter(|o| o.len() > 5));
     }
     tr.flush();
     0
